@@ -2,6 +2,7 @@ import MockeryModel.Gen.Data
 import MockeryLemmas.Types
 import MockeryModel.Generated.TypeSwitchFacts
 import MockeryModel.Go.TypeSwitchText
+import MockeryLemmas.Accessors
 /-!
 # C14 — Data handed to custom templates describes the interfaces faithfully
 
@@ -107,5 +108,39 @@ theorem type_switches_transcribed :
     Generated.varNameForTypeCases = Go.SwitchText.expectedVarNameForTypeCases ∧
     Generated.varNameForTypeCasesAfter = Go.SwitchText.expectedVarNameForTypeCasesAfter := by
   exact ⟨rfl, rfl, rfl, rfl, rfl, rfl, rfl⟩
+
+open Mockery.Gen.AccessorsEq Mockery.Generated in
+/-- **the string accessors of the model are the source's**: `Generated/Accessors.lean` is written on every run by a
+translator (harness/verifx/gostrings.go) from the Go text of every `Param` and `Method` accessor, statement by
+statement (`strings.Join`, `strings.Replace(…, 1)`, slicing and indexing are the small prelude `Go/StrPrelude.lean`).
+For every method of the model, each accessor of `Gen/Data.lean` – the strings the theorems above are about and the
+templates are rendered from – equals the translated function -/
+theorem accessors_are_the_translated_source (m : MethodOut) :
+    Accessors.Method.ArgList (toMethod m) = m.argList ∧
+    Accessors.Method.ArgTypeList (toMethod m) = m.argTypeList ∧
+    Accessors.Method.ArgTypeListEllipsis (toMethod m) = m.argTypeListEllipsis ∧
+    Accessors.Method.ArgCallList (toMethod m) = m.argCallList true ∧
+    Accessors.Method.ArgCallListNoEllipsis (toMethod m) = m.argCallList false ∧
+    Accessors.Method.ReturnArgTypeList (toMethod m) = m.returnArgTypeList ∧
+    Accessors.Method.ReturnArgNameList (toMethod m) = m.returnArgNameList ∧
+    Accessors.Method.ReturnArgList (toMethod m) = m.returnArgList ∧
+    Accessors.Method.Signature (toMethod m) = m.signature ∧
+    Accessors.Method.Declaration (toMethod m) = m.declaration ∧
+    Accessors.Method.Call (toMethod m) = m.call ∧
+    Accessors.Method.IsVariadic (toMethod m) = m.isVariadic ∧
+    Accessors.Method.AcceptsContext (toMethod m) = m.acceptsContext ∧
+    Accessors.Method.ReturnsError (toMethod m) = m.returnsError :=
+  ⟨argList_eq m, argTypeList_eq m, argTypeListEllipsis_eq m, argCallListTrue_eq m, argCallListNoEllipsis_eq m,
+   returnArgTypeList_eq m, returnArgNameList_eq m, returnArgList_eq m, signature_eq m, declaration_eq m, call_eq m,
+   isVariadic_eq m, acceptsContext_eq m, returnsError_eq m⟩
+
+open Mockery.Gen.AccessorsEq Mockery.Generated in
+/-- and so do the per-parameter accessors -/
+theorem param_accessors_are_the_translated_source (v : VarOut) (ellipsis : Bool) :
+    Accessors.Param.MethodArg (toParam v) = v.methodArg ∧
+    Accessors.Param.CallName (toParam v) ellipsis = v.callName ellipsis ∧
+    Accessors.Param.TypeStringEllipsis (toParam v) = v.typeStringEllipsis ∧
+    Accessors.Param.TypeStringVariadicUnderlying (toParam v) = v.typeStringVariadicUnderlying :=
+  ⟨methodArg_eq v, callName_eq v ellipsis, typeStringEllipsis_eq v, typeStringVariadicUnderlying_eq v⟩
 
 end Mockery.C14
